@@ -10,11 +10,14 @@
 package main
 
 import (
+	"encoding/json"
 	"fmt"
 	"os"
+	"os/exec"
 	"path/filepath"
 	"regexp"
-	"sync/atomic"
+	"runtime"
+	"strconv"
 
 	"github.com/anishathalye/porcupine"
 
@@ -55,32 +58,30 @@ func specOf(run *ev.Run, fams []enumFamily, idx int64) (roundSpec, bool) {
 	return genRound(run.CaseRand(13, int(idx)), int(idx)), true
 }
 
-var roundsDone, porcupineOps atomic.Int64
-
-func doCase(run *ev.Run, fams []enumFamily, idx int64) {
+func doCase(run *ev.Run, st *stats, fams []enumFamily, idx int64) {
 	spec, ok := specOf(run, fams, idx)
 	if !ok {
-		run.HarnessBug(fmt.Sprintf("no such case %d", idx))
+		st.HarnessBug(fmt.Sprintf("no such case %d", idx))
 		return
 	}
 	var rr *roundRec
 	var completed bool
 	if pi := mon.Catch(func() { rr, completed = runRound(spec) }); pi != nil {
 		// library calls are caught inside the callers; a panic here is the harness's own
-		run.HarnessBug("panic in round executor: " + pi.Value + " at " + pi.Frame)
+		st.HarnessBug("panic in round executor: " + pi.Value + " at " + pi.Frame)
 		return
 	}
-	roundsDone.Add(1)
-	run.Count("rounds", spec.Family)
+	st.Rounds++
+	st.Count("rounds", spec.Family)
 	if !completed {
-		run.Eval()
-		run.Inconclusive("watchdog: quiescence not reached within " + watchdog.String())
+		st.Eval()
+		st.Inconclusive("watchdog: quiescence not reached within " + watchdog.String())
 		return
 	}
 	var all []finding
 	maxCallers, calls := 0, 0
 	for pi, ph := range rr.Phases {
-		all = append(all, judgePhase(run, rr, pi, ph)...)
+		all = append(all, judgePhase(st, rr, pi, ph)...)
 		if len(ph.Calls) > maxCallers {
 			maxCallers = len(ph.Calls)
 		}
@@ -88,37 +89,37 @@ func doCase(run *ev.Run, fams []enumFamily, idx int64) {
 	}
 	witness := map[string]any{"case": idx, "round": rr, "note": "stamps are values of one monotonic event counter; a download overlaps a call when start < ret and the call began before the download goroutine was seen gone"}
 	for _, f := range all {
-		run.Violation("C13:"+f.key, idx, f.what, witness)
+		st.Violation("C13:"+f.key, idx, f.what, witness, calls)
 	}
 	// second oracle
 	switch {
 	case len(all) > 0 && maxCallers > 12:
-		run.Count("porcupine", "skipped:violating-round-with->12-concurrent-callers")
+		st.Count("porcupine", "skipped:violating-round-with->12-concurrent-callers")
 	default:
 		res, n := linearizable(rr)
-		porcupineOps.Add(int64(n))
+		st.PorcOps += int64(n)
 		switch res {
 		case porcupine.Ok:
-			run.Count("porcupine", "linearizable")
-			run.Observed("porcupine:linearizable-history")
+			st.Count("porcupine", "linearizable")
+			st.Observed("porcupine:linearizable-history")
 			if len(all) > 0 {
-				run.Count("porcupine", "linearizable-although-phase-checker-fired")
+				st.Count("porcupine", "linearizable-although-phase-checker-fired")
 			}
 		case porcupine.Illegal:
 			if len(all) > 0 {
-				run.Count("porcupine", "not-linearizable:confirms-phase-checker")
+				st.Count("porcupine", "not-linearizable:confirms-phase-checker")
 			} else {
-				run.Count("porcupine", "not-linearizable")
-				run.Violation("C13:history-not-linearizable", idx, "the recorded round history has no linearization against the cache model (state = served set x cached set; a verification hits the cache or refreshes), although the phase checker found nothing", witness)
+				st.Count("porcupine", "not-linearizable")
+				st.Violation("C13:history-not-linearizable", idx, "the recorded round history has no linearization against the cache model (state = served set x cached set; a verification hits the cache or refreshes), although the phase checker found nothing", witness, calls)
 			}
 		default:
-			run.Count("porcupine", "timeout")
-			run.Eval()
-			run.Inconclusive("porcupine timeout")
+			st.Count("porcupine", "timeout")
+			st.Eval()
+			st.Inconclusive("porcupine timeout")
 		}
 	}
 	if calls <= 10 && len(all) == 0 {
-		run.SampleKind("round:"+spec.Family, rr)
+		st.SampleKind("round:"+spec.Family, rr)
 	}
 }
 
@@ -158,23 +159,65 @@ func raceLog(run *ev.Run) {
 	run.Extra("race_detector", map[string]any{"log_path": m[1], "log_files": len(files), "reports": total, "reports_touching_library": lib})
 }
 
+var mandatory = []string{"success:cache-hit-without-download", "success:after-refresh", "rotation:new-key-triggers-refresh-and-verifies", "reject:unknown-kid",
+	"reject:retired-key-after-refresh", "fault:cached-key-survives-failed-download", "shared-download:>=8-waiters-1-download",
+	"cancel:joiner-while-parked", "cancel:owner-while-parked", "porcupine:linearizable-history"}
+
+// caseAt maps a position of the global case list (enumerated schedules first, then random rounds) to a case index.
+func caseAt(pos, nEnum int) int64 {
+	if pos < nEnum {
+		return enumBase + int64(pos)
+	}
+	return int64(pos - nEnum)
+}
+
+// workerMain: process k of n runs the positions p = k (mod n), one after the other, and writes its stats to a file.
+func workerMain(run *ev.Run, fams []enumFamily, nEnum, nRandom int, spec string) {
+	var k, n int
+	if _, err := fmt.Sscanf(spec, "%d/%d", &k, &n); err != nil || n <= 0 {
+		fmt.Println("c13 worker: bad C13_WORKER", spec)
+		os.Exit(2)
+	}
+	st := newStats()
+	for p := k; p < nEnum+nRandom; p += n {
+		doCase(run, st, fams, caseAt(p, nEnum))
+	}
+	st.Dumps, st.DumpNs = dumps, dumpNs
+	b, err := json.Marshal(st)
+	if err == nil {
+		err = os.WriteFile(os.Getenv("C13_WORKER_OUT"), b, 0o644)
+	}
+	if err != nil {
+		fmt.Println("c13 worker: cannot write stats:", err)
+		os.Exit(2)
+	}
+	os.Exit(0)
+}
+
 func main() {
 	run := ev.Start("C13", "exploration")
+	fams := enumFamilies(run)
+	nEnum := 0
+	for _, f := range fams {
+		nEnum += f.count
+	}
+	nRandom := run.N(3000, 40000)
+	if spec := os.Getenv("C13_WORKER"); spec != "" {
+		workerMain(run, fams, nEnum, nRandom, spec)
+	}
 	run.SetRule("one evaluation = one VerifySignature call judged by the phase checker; rounds = fresh remote key set, 2-5 phases separated by quiescent barriers, 1-64 concurrent callers per phase, gated or free-running downloads; plus every interleaving of arrive/cancel/release for <= 4 callers and <= 2 held downloads; distinct = distinct vectors (phase mode, cached set, served set, token kind, reference class vs cache, reference class vs served set, cancel point, role owner/joiner/none, overlapping download classes, outcome, SkipRemoteCheck)")
 	run.Assume("the fake endpoint aborts a held request when the request context ends, as net/http's transport does",
 		"a well-formed download that completed before a barrier is in the cache after the barrier (the barrier waits for the download goroutine to disappear)",
 		"grey (counted, never failed): own context cancelled before the call returned; retired keys until a barrier after a successful download; kid-less tokens among several candidate keys; header kid naming another served key; keys published with use=enc; calls that may have been handed a scripted faulty download; kid-less tokens under SkipRemoteCheck",
 		"a download aborted by ANOTHER caller's cancellation does not excuse a failure (that is the clause 'one caller's cancellation does not fail another caller')")
-	run.Mandatory("success:cache-hit-without-download", "success:after-refresh", "rotation:new-key-triggers-refresh-and-verifies", "reject:unknown-kid",
-		"reject:retired-key-after-refresh", "fault:cached-key-survives-failed-download", "shared-download:>=8-waiters-1-download",
-		"cancel:joiner-while-parked", "cancel:owner-while-parked", "porcupine:linearizable-history", "race-detector:enabled")
-	fams := enumFamilies(run)
+	run.Mandatory(mandatory...)
+	run.Mandatory("race-detector:enabled")
 	if rc := run.ReplayCase(); rc >= 0 {
 		// a replay decides only the replayed case; coverage obligations do not apply
-		doCase(run, fams, rc)
-		for _, m := range []string{"success:cache-hit-without-download", "success:after-refresh", "rotation:new-key-triggers-refresh-and-verifies", "reject:unknown-kid",
-			"reject:retired-key-after-refresh", "fault:cached-key-survives-failed-download", "shared-download:>=8-waiters-1-download",
-			"cancel:joiner-while-parked", "cancel:owner-while-parked", "porcupine:linearizable-history"} {
+		st := newStats()
+		doCase(run, st, fams, rc)
+		st.into(run)
+		for _, m := range mandatory {
 			run.Observed(m)
 		}
 		run.Distinct("replay")
@@ -183,22 +226,77 @@ func main() {
 		run.Finish()
 	}
 	// (a race report has no case to replay: its replay file carries case -1 and the whole tier is re-run)
-	// enumerated small schedules first (so that the witness kept for a violation class is a small one)
-	nEnum := 0
-	for _, f := range fams {
-		nEnum += f.count
+	nw := runtime.NumCPU()
+	if nw > 16 {
+		nw = 16
 	}
-	ev.Parallel(nEnum, 0, func(_ int, i int) { doCase(run, fams, enumBase+int64(i)) })
+	if v, err := strconv.Atoi(os.Getenv("C13_WORKERS")); err == nil && v > 0 {
+		nw = v
+	}
+	dir, err := os.MkdirTemp("", "c13-workers-")
+	if err != nil {
+		fmt.Printf("INCONCLUSIVE property=C13 cannot create worker directory: %v\n", err)
+		os.Exit(2)
+	}
+	self, err := os.Executable()
+	if err != nil {
+		self = os.Args[0]
+	}
+	type worker struct {
+		cmd      *exec.Cmd
+		out, log string
+	}
+	var ws []*worker
+	for k := 0; k < nw; k++ {
+		w := &worker{out: filepath.Join(dir, fmt.Sprintf("w%d.json", k)), log: filepath.Join(dir, fmt.Sprintf("w%d.log", k))}
+		lf, err := os.Create(w.log)
+		if err != nil {
+			fmt.Printf("INCONCLUSIVE property=C13 cannot create worker log: %v\n", err)
+			os.Exit(2)
+		}
+		w.cmd = exec.Command(self, string(run.Tier))
+		w.cmd.Env = append(os.Environ(), fmt.Sprintf("C13_WORKER=%d/%d", k, nw), "C13_WORKER_OUT="+w.out,
+			"VERIF_TIER="+string(run.Tier), fmt.Sprintf("VERIF_SEED=%d", run.Seed))
+		w.cmd.Stdout, w.cmd.Stderr = lf, lf
+		if err := w.cmd.Start(); err != nil {
+			fmt.Printf("INCONCLUSIVE property=C13 cannot start worker: %v\n", err)
+			os.Exit(2)
+		}
+		lf.Close()
+		ws = append(ws, w)
+	}
+	total := newStats()
+	died := false
+	for k, w := range ws {
+		werr := w.cmd.Wait()
+		b, rerr := os.ReadFile(w.out)
+		var st stats
+		if werr != nil || rerr != nil || json.Unmarshal(b, &st) != nil {
+			// the worker died (a fatal runtime error in library code cannot be recovered): hand its output to the wrapper,
+			// which attributes the crash by its first non-runtime frame
+			died = true
+			lg, _ := os.ReadFile(w.log)
+			fmt.Printf("c13: worker %d/%d died: %v\n%s\n", k, nw, werr, lg)
+			continue
+		}
+		total.merge(&st)
+	}
+	os.RemoveAll(dir)
+	if died {
+		os.Exit(3)
+	}
+	total.into(run)
 	enumDesc := []map[string]int{}
 	for _, f := range fams {
 		enumDesc = append(enumDesc, map[string]int{"callers": f.n, "max_cancelled_callers": f.maxCancel, "schedules": f.count})
 	}
 	run.Extra("enumerated_schedules", enumDesc)
-	n := run.N(400, 20000)
-	ev.Parallel(n, 0, func(_ int, i int) { doCase(run, fams, int64(i)) })
-	run.Extra("random_rounds", n)
-	run.Extra("goroutine_dumps", dumps)
-	run.Extra("porcupine_operations_checked", porcupineOps.Load())
+	run.Extra("random_rounds", nRandom)
+	run.Extra("rounds_executed", total.Rounds)
+	run.Extra("worker_processes", nw)
+	run.Extra("goroutine_dumps", total.Dumps)
+	run.Extra("goroutine_dump_seconds_summed_over_workers", float64(total.DumpNs)/1e9)
+	run.Extra("porcupine_operations_checked", total.PorcOps)
 	if run.Get("verdict", "violation") == 0 && run.Violations() == 0 {
 		// the D13 scenario must have been driven and survived for the run to say anything about that clause
 		run.Mandatory("cancel:peer-cancelled-other-caller-still-succeeds")
